@@ -328,6 +328,7 @@ func (c *Ctx) codecArms(u *FuncUnit) (arms map[string]*armFacts, hasDefault, def
 					if tv, ok := c.m.Info.Types[e]; ok && tv.IsType() && arms[tv.Type.String()] == nil {
 						cp := *af
 						cp.typ = tv.Type
+						cp.width = c.L.Sizes.Sizeof(tv.Type)
 						arms[tv.Type.String()] = &cp
 					}
 				}
